@@ -53,6 +53,7 @@ type Fail struct {
 	Shard int    // -1 = every shard
 	Row   int    // fail when the per-shard invocation counter reaches Row
 	Once  bool   // fail only the first time that point is reached in the process
+	Times int    // with Once: fail the first Times times instead of once (0 = 1)
 	AtEOF bool   // writerfunc: fail on the call that carries end-of-stream (instead of at Row)
 }
 
